@@ -831,10 +831,75 @@ theorem deleteNodes_keys (g : Graph) (dl : List Id) (i : Id) : i ∈ (deleteNode
   · rintro ⟨⟨n, hn, rfl⟩, hd⟩
     exact ⟨n, ⟨hn, by simpa using hd⟩, rfl⟩
 
+/-- the single-threaded rest of the batch re-establishes well-formedness from any classified state -/
+theorem tail_wf (cfg : Cfg) (ds : Dists D) (hR : 1 ≤ cfg.degreeBound) (ord : List Id) (acc : Acc) (g' : Graph) (L' : List Id)
+    (hI : CInv cfg.degreeBound acc L') (h : tail cfg ds ord acc = .ok g') :
+    WF cfg.degreeBound g' L' := by
+  rw [wf_iff]
+  obtain ⟨hp, hmax, hts, htud, hdj, hlv, hnd, hle⟩ := hI
+  unfold tail at h
+  split at h
+  · cases h
+  · rename_i g1 hg1
+    -- phase 2: inbound edges of touched nodes are gone
+    have h2 : P cfg.degreeBound g1 (fun _ => False) ∧ (∀ i, i ∈ g1.keys ↔ i ∈ acc.g.keys) ∧ g1.vecs = acc.g.vecs ∧
+        g1.maxId = acc.g.maxId ∧ (∀ n ∈ g1.nodes, n.1 ∉ acc.touched → ∀ t ∈ n.2, t ∉ acc.touched) := by
+      split at hg1
+      · rename_i hemp
+        cases hg1
+        have : acc.touched = [] := by simpa using hemp
+        exact ⟨hp, fun _ => Iff.rfl, rfl, rfl, by simp [this]⟩
+      · exact removeInbound_P cfg ds hR ord acc.touched acc.g g1 hp hg1
+    obtain ⟨hp1, hk1, hv1, hm1, hcl1⟩ := h2
+    -- phase 3: deletion
+    have hp2 : P cfg.degreeBound (deleteNodes g1 acc.deleted) (fun i => i ∈ acc.updated) := by
+      refine ⟨?_, ?_, ?_, ?_⟩
+      · exact hp1.nodupK.sublist (List.Sublist.map _ List.filter_sublist)
+      · exact hp1.nodupV.sublist List.filter_sublist
+      · intro i
+        rw [deleteNodes_keys]
+        show _ ↔ i ∈ g1.vecs.filter _
+        rw [List.mem_filter, hp1.kv i]; simp
+      · intro n hn hnu
+        obtain ⟨hn1, hnd1⟩ := List.mem_filter.mp hn
+        have hnt : n.1 ∉ acc.touched := by
+          intro ht
+          rcases (htud _).mp ht with h | h
+          · exact hnu h
+          · simp [h] at hnd1
+        obtain ⟨hc1, hc2⟩ := hp1.clean n hn1 (fun f => f)
+        refine ⟨fun t ht => ⟨(hc1 t ht).1, ?_⟩, hc2⟩
+        rw [deleteNodes_keys]
+        refine ⟨(hc1 t ht).2, fun htd => ?_⟩
+        exact hcl1 n hn1 hnt t ht ((htud t).mpr (Or.inr htd))
+    -- phase 4: re-insertion
+    obtain ⟨hp3, hk3, hm3⟩ := reinsertAll_P cfg ds hR acc.updated _ g' _ hp2 h
+    have hkeys : ∀ i, i ∈ g'.keys ↔ (i = entry ∨ i ∈ L') := by
+      intro i
+      rw [hk3 i, deleteNodes_keys, hk1 i, ← hlv i]
+      constructor
+      · rintro (hu | h)
+        · exact ⟨(hts i ((htud i).mpr (Or.inl hu))).1, hdj i hu⟩
+        · exact h
+      · intro h; exact Or.inr h
+    refine ⟨hp3.congr (fun i hi => hi.2 hi.1), hnd, hle, hkeys, ?_⟩
+    intro i hi
+    have : g'.maxId = acc.g.maxId := by rw [hm3]; exact hm1
+    rw [this]
+    have hik := ((hlv i).mpr (Or.inr hi)).1
+    exact hmax i hik (fun e => hle (e ▸ hi))
+
+/-- `applyV` is the classification (with the sequential insert workers) followed by `tail` -/
+theorem applyV_tail (lastWins : Bool) (cfg : Cfg) (ds : Dists D) (ord : List Id) (g : Graph) (batch : List Change) :
+    applyV lastWins cfg ds ord g batch =
+      (match classifyAll lastWins cfg ds batch { g := g } with
+       | .error e => .error e
+       | .ok acc => tail cfg ds ord acc) := rfl
+
 theorem apply_wf (cfg : Cfg) (ds : Dists D) (hR : 1 ≤ cfg.degreeBound) (ord : List Id) (g g' : Graph) (L : List Id)
     (batch : List Change) (hWF : WF cfg.degreeBound g L) (h : apply cfg ds ord g batch = .ok g') :
     WF cfg.degreeBound g' (liveAfter L batch) := by
-  rw [wf_iff] at hWF ⊢
+  rw [wf_iff] at hWF
   obtain ⟨hP, hl, he, hkl, hm⟩ := hWF
   have hI0 : CInv cfg.degreeBound { g := g } L := by
     refine ⟨hP, ?_, by simp, by simp, by simp, ?_, hl, he⟩
@@ -843,63 +908,12 @@ theorem apply_wf (cfg : Cfg) (ds : Dists D) (hR : 1 ≤ cfg.degreeBound) (ord : 
       · exact absurd h hie
       · exact hm i h
     · intro i; simp; exact hkl i
-  unfold apply applyV at h
+  unfold apply at h
+  rw [applyV_tail] at h
   split at h
   · cases h
   · rename_i acc hacc
-    have hI := classifyAll_inv cfg ds hR batch _ acc L hI0 hacc
-    generalize liveAfter L batch = L' at hI ⊢
-    obtain ⟨hp, hmax, hts, htud, hdj, hlv, hnd, hle⟩ := hI
-    split at h
-    · cases h
-    · rename_i g1 hg1
-      -- phase 2: inbound edges of touched nodes are gone
-      have h2 : P cfg.degreeBound g1 (fun _ => False) ∧ (∀ i, i ∈ g1.keys ↔ i ∈ acc.g.keys) ∧ g1.vecs = acc.g.vecs ∧
-          g1.maxId = acc.g.maxId ∧ (∀ n ∈ g1.nodes, n.1 ∉ acc.touched → ∀ t ∈ n.2, t ∉ acc.touched) := by
-        split at hg1
-        · rename_i hemp
-          cases hg1
-          have : acc.touched = [] := by simpa using hemp
-          exact ⟨hp, fun _ => Iff.rfl, rfl, rfl, by simp [this]⟩
-        · exact removeInbound_P cfg ds hR ord acc.touched acc.g g1 hp hg1
-      obtain ⟨hp1, hk1, hv1, hm1, hcl1⟩ := h2
-      -- phase 3: deletion
-      have hp2 : P cfg.degreeBound (deleteNodes g1 acc.deleted) (fun i => i ∈ acc.updated) := by
-        refine ⟨?_, ?_, ?_, ?_⟩
-        · exact hp1.nodupK.sublist (List.Sublist.map _ List.filter_sublist)
-        · exact hp1.nodupV.sublist List.filter_sublist
-        · intro i
-          rw [deleteNodes_keys]
-          show _ ↔ i ∈ g1.vecs.filter _
-          rw [List.mem_filter, hp1.kv i]; simp
-        · intro n hn hnu
-          obtain ⟨hn1, hnd1⟩ := List.mem_filter.mp hn
-          have hnt : n.1 ∉ acc.touched := by
-            intro ht
-            rcases (htud _).mp ht with h | h
-            · exact hnu h
-            · simp [h] at hnd1
-          obtain ⟨hc1, hc2⟩ := hp1.clean n hn1 (fun f => f)
-          refine ⟨fun t ht => ⟨(hc1 t ht).1, ?_⟩, hc2⟩
-          rw [deleteNodes_keys]
-          refine ⟨(hc1 t ht).2, fun htd => ?_⟩
-          exact hcl1 n hn1 hnt t ht ((htud t).mpr (Or.inr htd))
-      -- phase 4: re-insertion
-      obtain ⟨hp3, hk3, hm3⟩ := reinsertAll_P cfg ds hR acc.updated _ g' _ hp2 h
-      have hkeys : ∀ i, i ∈ g'.keys ↔ (i = entry ∨ i ∈ L') := by
-        intro i
-        rw [hk3 i, deleteNodes_keys, hk1 i, ← hlv i]
-        constructor
-        · rintro (hu | h)
-          · exact ⟨(hts i ((htud i).mpr (Or.inl hu))).1, hdj i hu⟩
-          · exact h
-        · intro h; exact Or.inr h
-      refine ⟨hp3.congr (fun i hi => hi.2 hi.1), hnd, hle, hkeys, ?_⟩
-      intro i hi
-      have : g'.maxId = acc.g.maxId := by rw [hm3]; exact hm1
-      rw [this]
-      have hik := ((hlv i).mpr (Or.inr hi)).1
-      exact hmax i hik (fun e => hle (e ▸ hi))
+    exact tail_wf cfg ds hR ord acc g' _ (classifyAll_inv cfg ds hR batch _ acc L hI0 hacc) h
 
 /-- (alias used by C03) -/
 theorem C10_step_aux (cfg : Cfg) (hR : 1 ≤ cfg.degreeBound) (ds : Dists D) (ord : List Id) (g g' : Graph) (L : List Id)
